@@ -257,7 +257,7 @@ def summarise(agg, tier):
     q = tier == "quick"
     c = agg.counters
     return {
-        "thresholds": {"compiled_ok": 250 if q else 6000, "executed": 300 if q else 8000, "exact_outputs_compared": 200 if q else 5000, "approx_outputs_compared": 40 if q else 1000,
+        "thresholds": {"compiled_ok": 230 if q else 6000, "executed": 300 if q else 8000, "exact_outputs_compared": 200 if q else 5000, "approx_outputs_compared": 40 if q else 1000,
                        "npu_ops_executed": 4000 if q else 100000, "poison_pairs": 300 if q else 8000},
         "coverage": {"programs": c.get("compiled_ok", 0), "disagreements_checked": len(agg.violations)},
         "rule": "compile campaign (exact-chain/dag, stripe-, alias-, buffer-stress = exact class; approx-tail = one approximated operator at the tail; cpu-mix / lut-stress executed "
